@@ -342,6 +342,8 @@ class ScriptedTasks(object):
         self.workers = workers
         self.attempts = {}
     def __call__(self, resource, payload, now):
+        if not str(resource).startswith("arn:aws:rpcmessage:"):
+            raise Unjudged("service integration %s is outside the reference interpreter" % resource)
         fname = resource.rsplit(":", 1)[-1]
         spec = self.workers.get(fname)
         if spec is None:
